@@ -644,7 +644,9 @@ OptContract(e) ==
 (*   | "blocked"; model = assignment returned by get_model (if asked),      *)
 (*   value = get_value of the conjunction; served = members that consumed a *)
 (*   control command; winner = member whose answer was taken                *)
-(*   asserts = the assertions (terms), verdict = what answering members say *)
+(*   rounds[r].asserts = the assertions (terms) of that solve and            *)
+(*   rounds[r].verdict = what the answering members say about them (the     *)
+(*   assertions and the verdict change between consecutive solves)          *)
 (***************************************************************************)
 Answers(b) == b \in {"sat", "unsat", "crash_post"}
 PortfolioContract(e) ==
@@ -652,12 +654,12 @@ PortfolioContract(e) ==
         someone == \E i \in 1..n : Answers(e.beh[i])
         Bad(r) ==
             LET rd == e.rounds[r] IN
-            (IF someone THEN <<>> \o Fl("returns_members_verdict", rd.res = e.verdict)
+            (IF someone THEN <<>> \o Fl("returns_members_verdict", rd.res = rd.verdict)
                         ELSE Fl("reports_error_when_every_member_fails", rd.res = "raised")) \o
             Fl("never_blocks_forever", rd.res # "blocked") \o
             Fl("only_the_winner_serves_control_commands", \A j \in 1..Len(rd.served) : rd.served[j] = rd.winner) \o
             (IF rd.res = "sat" /\ rd.has_model
-             THEN Fl("model_satisfies_assertions", AllTrue(e.asserts, ModelOf(rd.model))) \o
+             THEN Fl("model_satisfies_assertions", AllTrue(rd.asserts, ModelOf(rd.model))) \o
                   Fl("value_agrees_with_model", rd.value = "true")
              ELSE <<>>)
         RECURSIVE AllBad(_)
